@@ -85,7 +85,7 @@ RESULTS_AT_SAVE = {
 def stores_rates(simtype: str, algo: str) -> tuple:
     """(v stored, a stored) by Save_Iter/Set_Iter under this algorithm."""
     hyper = algo not in ("elliptic", "parabolic")
-    if simtype in ("Elastic", "HyperElastic"):
+    if simtype in ("Elastic", "HyperElastic", "Beam"):
         return hyper, hyper
     if simtype == "Thermal":
         return algo == "parabolic", False
